@@ -405,5 +405,13 @@ func TestC10(t *testing.T) {
 	for i := 0; i < n; i++ {
 		scenario(m, r, i)
 	}
+	// A rolled-back block that accumulated several rewards into one contract lockup record (multi-entry undo
+	// list) must have been explored; whether the abandoned branch holds one depends on how the coinbase ETXs
+	// happen to be released: add lockup scenarios (index = 2 mod 3) until it was seen, at most 6 more.
+	for extra := 0; extra < 6 && m.Seen("reorg-over-contract-lockup-accumulations") < 2 && m.Violations() == 0; extra++ {
+		scenario(m, r, 3*(n+extra)+2)
+		m.AddExtra("extra_lockup_scenarios", 1)
+	}
 	m.Floor(int64(n), 4)
+	m.Need("reorg-over-contract-lockup-accumulations")
 }
